@@ -338,14 +338,16 @@ def scen_e2e(ch, params, out):
     import json
     from vflib import clienv
     a1, a2 = ch.choose("argv_atoms", [(a, b) for a in [None] + ATOMS for b in [None] + ATOMS], shard=True)
-    pre_kind = ch.choose("preamble", ["none", "blank", "comment", "code", "atom", "atom_padded"])
+    pre_kind = ch.choose("preamble", ["none", "blank", "comment", "code", "atom", "atom_padded", "odd_separators", "backslashes"])
     fw = ch.choose("framework", params.get("frameworks", ["base", "pydantic", "attrs", "dataclasses"]))
     scalars_only = ch.flag("sample_without_imports")
     doc = [{"a": 1, "b": 2.5}] if scalars_only else [{"a": [1, "s"], "b": "2020"}]
     fs = {"/vfs/in.json": json.dumps(doc)}
     argv = ["-m", "Root", "/vfs/in.json", "-f", fw]
     pre = {"none": None, "blank": " \n\t ", "comment": "# generated, do not edit", "code": "import os\nX = os.sep",
-           "atom": (a1 or "#") , "atom_padded": "\n  # " + (a2 or "x") + "  \n"}[pre_kind]
+           "atom": (a1 or "#") , "atom_padded": "\n  # " + (a2 or "x") + "  \n",
+           # characters that str.splitlines() treats as line ends but the Python tokenizer does not; escapes a regex template would process
+           "odd_separators": 'SEP = "a\u2028b\x0cc\x85d"  # \u2029 end', "backslashes": 'PAT = r"\\d+\\1"; P2 = "C:\\\\temp\\n"'}[pre_kind]
     if pre_kind == "atom":
         pre = "# " + pre.replace("\n", " ")
     if pre is not None:
